@@ -7,7 +7,9 @@ use serde_json::{json, Value};
 fn seg_items() -> Vec<It> {
     vec![ipa("p"), ipa("t"), ipa("a"), ipa("i"),
          It::Mat("[+cons]", vec![(F_CONS, true)]), grp_c(), grp_v(), It::Mat("[+hi]", vec![(F_HIGH, true)]),
-         It::Set(vec![ipa("p"), ipa("a")])]
+         It::Set(vec![ipa("p"), ipa("a")]),
+         // a negative place feature: /p/ and /t/ have no dorsal node, so `[-hi]` selects /a/ only (an absent sub-node matches neither value)
+         It::Mat("[-hi]", vec![(F_HIGH, false)])]
 }
 fn out_items() -> Vec<OutIt> {
     vec![OutIt::Ipa("t", seg("t")), OutIt::Ipa("i", seg("i")), OutIt::Mat("[+voice]", vec![(F_VOICE, true)]), OutIt::Mat("[-hi]", vec![(F_HIGH, false)])]
@@ -134,7 +136,7 @@ fn run_box(r: &mut Report, name: &str, rules: Vec<BasicRule>, words: &[CW]) {
 
 pub fn run() -> i32 {
     let mut r = Report::new("C03");
-    r.rule = "rules IN > OUT [/ ENV] [| ENV] over IN in {p,t,a,i,[+cons],C,V,[+hi],{p,a}}, OUT in {t,i,[+voice],[-hi],{t,i}}, ENV = before x after item sequences over the 9 segment items and $, # outermost; every rule x every word of the word space in every syllabification; real parser + Rule::apply vs reference interpreter, structural comparison. Non-trivial = the reference interpreter rewrites at least one position.".into();
+    r.rule = "rules IN > OUT [/ ENV] [| ENV] over IN in {p,t,a,i,[+cons],C,V,[+hi],{p,a},[-hi]}, OUT in {t,i,[+voice],[-hi],{t,i}}, ENV = before x after item sequences over the 10 segment items and $, # outermost; every rule x every word of the word space in every syllabification; real parser + Rule::apply vs reference interpreter, structural comparison. Non-trivial = the reference interpreter rewrites at least one position.".into();
     r.assumptions.push("reference interpreter harness/src/refint.rs written from doc.md; `$` = any syllable edge incl. word edges, `#` = word edge, both zero-width".into());
     r.assumptions.push("cases with two equal adjacent segments inside a syllable at any stage are skipped (length notation; excluded by the property)".into());
     let w44 = word_space(&inventory(4), 4);
